@@ -330,6 +330,7 @@ def unqual(t):
     """type string without package qualifiers (the generated file chooses its own import aliases)"""
     import re
     t = re.sub(r"\b\w+\.", "", t)
+    t = re.sub(r"\brune\b", "int32", re.sub(r"\bbyte\b", "uint8", t))   # aliases printed for untyped rune constants
     # struct tags: `json:"id"` in the source, "json:\"id\"" as printed from the AST; layout differs too
     return re.sub(r"\s+", "", t.replace('\\"', '"').replace("`", '"'))
 
@@ -347,7 +348,7 @@ def compare_case(case, variant, obs, model, check_types=True):
     """Returns (spec_problem, corr_problem): strings or None."""
     spec = None
     corr = None
-    want = spec_verdict(case, variant) if case["stream"] in ("exhaustive", "exhaustive-arity", "exhaustive-repeat", "random", "imported", "pending", "chan", "twopkg", "tags", "iface") else None
+    want = spec_verdict(case, variant) if case["stream"] in ("exhaustive", "exhaustive-arity", "exhaustive-repeat", "random", "imported", "pending", "chan", "twopkg", "tags", "iface", "untyped") else None
     if obs["class"] in ("timeout", "other", "panic"):
         spec = "goderive ended with %s (rc=%s): %s" % (obs["class"], obs["rc"], obs.get("stderr", "")[:300])
         return spec, corr
